@@ -2,6 +2,7 @@ import CuqiVerif.Props.C05
 import CuqiVerif.Proofs.C05_reject
 import Mathlib.MeasureTheory.Function.SpecialFunctions.Basic
 import Mathlib.MeasureTheory.Constructions.BorelSpace.Order
+import Mathlib.Analysis.MeanInequalities
 /-
   C05 — from the pointwise rejection identities of the ModifiedHalfNormal loops to the LAW of an accepted draw
   (item "the step from the MHN rejection identities to the law of the accepted draw" of the remaining-gap list).
@@ -113,6 +114,56 @@ example : mhnDelta 2 2 2 < 2 := by
   simp only [mhnDelta, Mhn.delta, eval_add, eval_sub, eval_mul, eval_div, eval_var, env4_1, env4_2, env4_3]
   simp only [eval]
   norm_num [h36]
+
+/-- the same inequality on explicit real expressions -/
+lemma neg_gamma_bound_real (t m β γ : ℝ) (ht : 0 < t) (hm : 0 < m) (hβ : 0 < β) (hγ : γ ≤ 0) :
+    m * (β * m - γ) * t - β * (m * Real.exp ((β * m - γ) / (2 * β * m - γ) * Real.log t)) ^ 2
+      + γ * (m * Real.exp ((β * m - γ) / (2 * β * m - γ) * Real.log t)) ≤ 0 := by
+  have hbm : 0 < β * m := mul_pos hβ hm
+  have hnum : 0 < β * m - γ := by linarith
+  have hden : 0 < 2 * β * m - γ := by nlinarith
+  set v1 := (β * m - γ) / (2 * β * m - γ) with hv1
+  have hv1pos : 0 < v1 := div_pos hnum hden
+  set s := Real.exp (v1 * Real.log t) with hs
+  have hspos : 0 < s := Real.exp_pos _
+  have hst : s ^ (1 / v1) = t := by
+    have : s = t ^ v1 := by rw [Real.rpow_def_of_pos ht, mul_comm]
+    rw [this, ← Real.rpow_mul ht.le, mul_one_div_cancel hv1pos.ne', Real.rpow_one]
+  set w1 := β * m / (β * m - γ) with hw1
+  set w2 := -γ / (β * m - γ) with hw2
+  have hw1n : 0 ≤ w1 := (div_pos hbm hnum).le
+  have hw2n : 0 ≤ w2 := div_nonneg (by linarith) hnum.le
+  have hsum : w1 + w2 = 1 := by rw [hw1, hw2]; field_simp; ring
+  have hexp : 2 * w1 + w2 = 1 / v1 := by rw [hw1, hw2, hv1]; field_simp; ring
+  have key := Real.geom_mean_le_arith_mean2_weighted hw1n hw2n (sq_nonneg s) hspos.le hsum
+  have hL : (s ^ 2) ^ w1 * s ^ w2 = t := by
+    rw [← Real.rpow_natCast s 2, ← Real.rpow_mul hspos.le, ← Real.rpow_add hspos]
+    push_cast
+    rw [hexp, hst]
+  rw [hL] at key
+  have h2 : m * (β * m - γ) * t ≤ m * (β * m - γ) * (w1 * s ^ 2 + w2 * s) :=
+    mul_le_mul_of_nonneg_left key (mul_pos hm hnum).le
+  have h3 : m * (β * m - γ) * (w1 * s ^ 2 + w2 * s) = β * (m * s) ^ 2 - γ * (m * s) := by
+    have e1 : (β * m - γ) * w1 = β * m := by rw [hw1]; field_simp
+    have e2 : (β * m - γ) * w2 = -γ := by rw [hw2]; field_simp
+    linear_combination (m * s ^ 2) * e1 + (m * s) * e2
+  linarith
+
+/-- **The bound of the negative-γ loop is a log-probability.**  `_MHN_sample_negative_gamma` (Algorithm 3): for every
+    matching point `m > 0`, `β > 0`, `γ ≤ 0` and every proposal draw `T > 0` the coded bound `val2·T − β X² + γ X`,
+    `X = m·T^{val1}`, is `≤ 0` (weighted AM–GM: `val2·T = (βm² − γm)·s^{(2βm−γ)/(βm−γ)} ≤ βm²s² − γms`, `s = T^{val1}`), with
+    equality at `T = 1`.  Hence `exp(bound) ≤ 1` and `rejection_accepted_law` applies to this loop with the identity
+    `mhn_neg_gamma_identity`: no capping, unlike the normal proposal. -/
+theorem mhn_neg_gamma_bound_nonpos (t m β γ : ℝ) (ht : 0 < t) (hm : 0 < m) (hβ : 0 < β) (hγ : γ ≤ 0) :
+    eval (env4 t m β γ) (Mhn.ngAccept (var 2) (var 3) (var 1) (var 0)) ≤ 0 := by
+  have h := neg_gamma_bound_real t m β γ ht hm hβ hγ
+  simp only [Mhn.ngAccept, Mhn.ngVal2, Mhn.ngX, Mhn.ngVal1, Mhn.rpow, eval_sub, eval_add, eval_mul, eval_var,
+    env4_0, env4_1, env4_2, env4_3]
+  simp only [eval]
+  norm_num
+  nlinarith [h]
+
+example := mhn_neg_gamma_bound_nonpos 2 1 1 (-1) (by norm_num) (by norm_num) (by norm_num) (by norm_num)
 
 /-- **Finitely many iterations.**  If iteration `k + 1` is reached only after a rejection (probability `1 - p`,
     `p = acc univ` the acceptance probability of one iteration) and then behaves like a fresh loop — the recursion
